@@ -50,10 +50,16 @@ class Schema:
                     vals.append((e, d, v.get('range')))
                 self.fields[num] = {'name': name.strip(), 'type': typ.strip().upper(), 'values': vals}
                 self.byname[name.strip()] = num
+        # components are scoped by the schema file that defines them: the transport (FIXT) file's header, trailer and messages are expanded with the
+        # transport file's components, the application file's messages with the application file's (a component name may exist in both)
         self.components = {}
+        self._scope = {}
         for r in ([troot] if troot is not None else []) + [root]:
+            sc_ = {}
             for c in r.findall('./components/component'):
+                sc_.setdefault(c.get('name'), c)
                 self.components.setdefault(c.get('name'), c)
+            self._scope[id(r)] = sc_
         self.extra = []           # (num, name, type, {message: required})
         if extra_fields:
             for m in re.finditer(r"<field\s+([^>]*?)/>", extra_fields):
@@ -67,6 +73,7 @@ class Schema:
                     msgs[mn] = (req == 'Y')
                 self.extra.append((num, at['name'], msgs))
         hroot = troot if troot is not None else root
+        self._comps = self._scope[id(hroot)]
         self.header = self._expand(hroot.find('./header'), True)
         self.trailer = self._expand(hroot.find('./trailer'), True)
         self.messages = {}        # msgtype -> dict(name, admin, members)
@@ -76,6 +83,7 @@ class Schema:
                 mt, name, cat = m.get('msgtype'), m.get('name'), m.get('msgcat')
                 if mt is None or name is None or cat is None or mt in self.messages:
                     continue
+                self._comps = self._scope[id(r)]
                 members = self._expand(m, True)
                 # user fields given on the f8c command line (-F) are not placed by the schema; f8c puts them in front of the
                 # message's own fields, in tag order — accepted as the reference placement
@@ -103,7 +111,7 @@ class Schema:
                     continue
                 out.append(Member(name, num, req and enclosing_required, group=self._expand(ch, True, depth + 1)))
             elif tag == 'component':
-                comp = self.components.get(name)
+                comp = getattr(self, '_comps', self.components).get(name)
                 if comp is not None:
                     out += self._expand(comp, enclosing_required and req, depth + 1)
         # a definition keeps the first occurrence of a tag only
